@@ -4,20 +4,21 @@
 
 use crate::events::{Acc, Case, Ev};
 use crate::posit_ref::QT;
-use crate::quire::{run_case, Clause, Failure, Outcome};
+use crate::quire::{run_case, Clause, Failure, Mode, Outcome};
 use crate::stats::Stats;
 use crate::sut::Sp;
 
 pub struct Shrinker {
     target: Clause,
+    mode: Mode,
     pub evals: u64,
     budget: u64,
     scratch: Stats,
 }
 
 impl Shrinker {
-    pub fn new(target: Clause) -> Self {
-        Shrinker { target, evals: 0, budget: 20_000, scratch: Stats::new() }
+    pub fn new(target: Clause, mode: Mode) -> Self {
+        Shrinker { target, mode, evals: 0, budget: 20_000, scratch: Stats::new() }
     }
 
     fn fails(&mut self, c: &Case) -> Option<Failure> {
@@ -25,7 +26,7 @@ impl Shrinker {
             return None;
         }
         self.evals += 1;
-        match run_case(c, &mut self.scratch).0 {
+        match run_case(c, self.mode, &mut self.scratch).0 {
             Outcome::Fail(f) if f.clause == self.target => Some(f),
             _ => None,
         }
